@@ -333,19 +333,19 @@ func shareID(s *key.Share) []byte {
 }
 
 type stateProj struct {
-	beacon                                              []byte
-	epoch                                               int64
-	state                                               string
-	threshold                                           int64
-	timeoutNs, genesisNs                                string // decimal (may exceed int64 for year 1)
-	scheme                                              []byte
-	seed                                                []byte
-	catchup, period                                     int64
-	leader                                              *partProj
+	beacon                                            []byte
+	epoch                                             int64
+	state                                             string
+	threshold                                         int64
+	timeoutNs, genesisNs                              string // decimal (may exceed int64 for year 1)
+	scheme                                            []byte
+	seed                                              []byte
+	catchup, period                                   int64
+	leader                                            *partProj
 	remaining, joining, leaving, acceptors, rejectors []partProj
-	group                                               *groupProj
-	share                                               []byte
-	hasShare                                            bool
+	group                                             *groupProj
+	share                                             []byte
+	hasShare                                          bool
 }
 
 func nsOf(t time.Time) string {
